@@ -422,6 +422,9 @@ int main(int argc, char** argv) {
       mags.push_back({(i64)1 << e, k20, 0, 0, "pattern x2^" + std::to_string(e) + ", path x2^20"});
       mags.push_back({(i64)1 << e, k20, t40 - 100 * k20, -t40, "pattern x2^" + std::to_string(e) + ", path x2^20 translated to the corner (2^40,-2^40)"});
     }
+    // long edges on both operands: the products formed when a quad's orientation is taken exceed 2^63 (|coordinates| stay below 2^40)
+    mags.push_back({(i64)1 << 28, (i64)1 << 32, 0, 0, "pattern x2^28, path x2^32"});
+    mags.push_back({(i64)1 << 31, (i64)1 << 32, -50 * ((i64)1 << 32), 0, "pattern x2^31, path x2^32 centred"});
     for (auto& mg : mags) {
       if (stop) break;
       bool done = true;
@@ -429,6 +432,39 @@ int main(int argc, char** argv) {
       if (!done) { stop = true; break; }
       rep.bounds_completed.push_back("magnitude: " + mg.name + ", patterns of 2.." + std::to_string(mpmax) + " x paths of 1.." + std::to_string(mqmax) + " vertices");
     }
+  }
+  // ---- many-quad family: pattern of P and path of Q vertices with P*Q around and above 1024 quads. Judged by exact point probes
+  //      (every parallelogram centroid and a 96 x 96 lattice over the bounding box) instead of the full quadtree, which would
+  //      need ~1e9 distance evaluations per case at this size
+  if ((part == "long" || part == "all") && !stop) {
+    struct Sz { int P, Q; }; std::vector<Sz> sizes = a.thorough() ? std::vector<Sz>{{32, 32}, {32, 33}, {40, 30}, {16, 66}, {48, 22}, {64, 33}, {11, 95}} : std::vector<Sz>{{32, 33}, {16, 66}};
+    u64 lidx = 0;
+    for (auto& sz : sizes) for (int closed = 0; closed < 2; ++closed) for (int sum = 1; sum >= 0; --sum) {
+      if (!rep.mine(lidx++)) continue;
+      if (rep.out_of_time()) { stop = true; break; }
+      // pattern: irregular star-convex polygon round the origin; path: irregular zigzag; integer coordinates, deterministic
+      Path pat, pa;
+      for (int i = 0; i < sz.P; ++i) { double ang = 6.283185307179586 * (i + 0.37 * ((i * 7) % 3)) / sz.P, r = 150 + 37 * ((i * 5) % 4); pat.push_back({(i64)llround(r * cos(ang)), (i64)llround(r * sin(ang))}); }
+      for (int i = 0; i < sz.Q; ++i) pa.push_back({(i64)(i * 61 + ((i * 13) % 7) * 3), (i64)(((i % 2) ? 900 : 0) + ((i * 29) % 11) * 17 + i * 5)});
+      Model m = build_model(pat, pa, sum != 0, closed != 0);
+      Group g; g.m = m; g.init(4, 1 << 30);
+      CaseIn ci; ci.pattern = pat; ci.path = pa; ci.sum = sum != 0; ci.closed = closed != 0; ci.apiD = false;
+      rep.current_case = [&]() { return ckey(ci); };
+      CL::Paths64 r = sum ? CL::MinkowskiSum(vfc::to64(pat), vfc::to64(pa), closed != 0) : CL::MinkowskiDiff(vfc::to64(pat), vfc::to64(pa), closed != 0);
+      rep.current_case = nullptr;
+      Paths sol = scaled(vfc::from64(r), 4);
+      rep.add("lib_calls"); rep.add("cases"); rep.add("compared"); rep.add("cases_long"); if (!r.empty()) rep.add("nontrivial"); rep.maxi("max_quads_in_a_case", m.raw);
+      u64 probes = 0, constrained = 0; std::string why;
+      auto probe = [&](const P& c) { ++probes; if (g.margin(c) <= g.eps) return; int aa = 0, bb2 = 0; bool skip = false; g.payload(c, aa, bb2, skip); if (skip) return; ++constrained;
+        bool on = false; int w = winding(sol, c, on); if (on) return;
+        if (w != aa && why.empty()) { char b[160]; snprintf(b, sizeof b, "%s: point (%.2f,%.2f) winding %d expected %d", aa ? "region_missing" : "region_excess", c.x / 4.0, c.y / 4.0, w, aa); why = b; } };
+      for (auto& q : g.Q) probe(P{(q[0].x + q[1].x + q[2].x + q[3].x) / 4, (q[0].y + q[1].y + q[2].y + q[3].y) / 4});
+      for (int iy = 0; iy <= 96; ++iy) for (int ix = 0; ix <= 96; ++ix) probe(P{g.bb.x0 * 4 - 40 + (i64)((i128)(g.bb.x1 - g.bb.x0) * 4 + 80) * ix / 96, g.bb.y0 * 4 - 40 + (i64)((i128)(g.bb.y1 - g.bb.y0) * 4 + 80) * iy / 96});
+      rep.add("probe_points", probes); rep.add("probe_points_constrained", constrained);
+      if (!why.empty()) rep.violation("C19", ckey(ci), why.substr(0, why.find(':')), why + " (" + std::to_string(m.raw) + " quads)");
+      rep.sample("long: pattern of " + std::to_string(sz.P) + " x path of " + std::to_string(sz.Q) + " vertices (" + std::to_string(m.raw) + " quads)");
+    }
+    if (!stop) rep.bounds_completed.push_back("many-quad family: " + std::to_string(sizes.size()) + " sizes x open/closed x sum/diff, point probes");
   }
   rep.write();
   return 0;
